@@ -545,6 +545,101 @@ def job_nonbonded(seed):
     return obs
 
 
+def job_nonbonded3(seed):
+    """Imc::Worker::DoNonbonded, three-body branch: which triple search runs for which combination of the three bead types, with which cutoff, and which angle
+    goes into which histogram.  The three Generate overloads of NBList_3Body mean: (l) all three beads from l; (l1, l2) centre from l1, both others from l2;
+    (l1, l2, l3) centre from l1, second from l2, third from l3 - so the list of type3 must be searched whenever type3 differs from type2."""
+    rvc.reset()
+    fns = rvc.functions(rvc.ast(REL, 'Imc::Worker::DoNonbonded'))
+    if 'DoNonbonded' not in fns:
+        raise core.Undecided('front end: Imc::Worker::DoNonbonded not found')
+    fn = fns['DoNonbonded'][0]
+    F = 'Imc::Worker::DoNonbonded'
+    obs = []
+    for types in (('A', 'A', 'A'), ('A', 'B', 'B'), ('A', 'A', 'B'), ('A', 'B', 'A'), ('A', 'B', 'C')):
+        ev = []
+        class PropM:
+            def __init__(s_, v=None): s_.v = v
+            def call(s_, name, args):
+                if name == 'get': return PropM({'name': 'I', 'type1': types[0], 'type2': types[1], 'type3': types[2]}[args[0]])
+                if name == 'value': return s_.v
+                if name == 'exists': return False
+                raise rvc.Unsupported('Property::' + name)
+        class BL:
+            def __init__(s_): s_.t = None
+            def call(s_, name, args):
+                if name == 'Generate':
+                    s_.t = args[1]; ev.append(('beadlist', args[1])); return None
+                raise rvc.Unsupported('BeadList::' + name)
+        r12, r13 = Mx.sym('p', 3), Mx.sym('q', 3)
+        class Triple:
+            def call(s_, name, args):
+                if name == 'r12': return r12.copy()
+                if name == 'r13': return r13.copy()
+                raise rvc.Unsupported('BeadTriple::' + name)
+        class NB3(list):
+            def setCutoff(s_, c): ev.append(('cutoff', D.lift(c).v))
+            def Generate(s_, *a):
+                ev.append(('search', tuple(x.t for x in a if isinstance(x, BL)), [x for x in a if isinstance(x, bool)]))
+                list.append(s_, Triple())
+        class H3(Hist):
+            def call(s_, name, args):
+                if name == 'Process':
+                    ev.append(('process', s_.name, D.lift(args[0]).v)); return None
+                return Hist.call(s_, name, args)
+        hist, histf = H3('h', 2, ev), H3('hf', 2, ev)
+        cut = sp.Symbol('icut', positive=True)
+        inter = {'index_': 0, 'threebody_': True, 'force_': False, 'max_': D(sp.Symbol('imax', positive=True)), 'step_': D(sp.Symbol('istep', positive=True)), 'cut_': D(cut)}
+        imc = {'nonbonded_': [PropM()], 'interactions_': StrMap({'I': inter}), 'options_': PropM(), 'include_intra_': False}
+        this = {'__class__': 'Worker', 'imc_': imc, 'current_hists_': [hist], 'current_hists_force_': [histf]}
+        def construct(ex_, n, ty, args):
+            if re.search(r'unique_ptr<(votca::csg::)?NBList_3Body', ty + n['type'].get('desugaredQualType', '')):
+                return NB3()
+            return NotImplemented
+        def decl(ex_, vd, ty, inner):
+            if ty.endswith('BeadList'):
+                return BL()
+            if 'unique_ptr' in ty and (not inner or not inner[0].get('inner')):
+                return None
+            return NotImplemented
+        cb = {'construct': construct, 'decl': decl, 'new': lambda *a: 'NEW', 'make_unique': lambda *a: NB3()}
+        ex = Exec({'top': 'TOP'}, cb, {}, this)
+        try:
+            ex.stmt(rvc.body_of(fn))
+        except Ret:
+            pass
+        t = ''.join(types)
+        search = [e for e in ev if e[0] == 'search']
+        if types[0] == types[1] == types[2]:
+            exp = (types[0],)
+        elif types[1] == types[2]:
+            exp = (types[0], types[1])
+        else:
+            exp = types
+        ok = len(search) == 1 and search[0][1] == exp
+        obs.append(Ob('C04.nonbonded3/%s/lists' % t, F, 'exactly one triple search, over %s (centre beads of type1; the list of type3 takes part whenever type3 differs from type2)' % (exp,), 'RVC', 'symbolic execution',
+                      core.PROVED if ok else core.REFUTED, 0, str(search), witness=None if ok else {'types': types, 'searches': str(search), 'expected_lists': exp}))
+        ok = bool(search) and all(e[2] == [True] for e in search)
+        obs.append(Ob('C04.nonbonded3/%s/exclusions' % t, F, 'bonded exclusions are applied in the triple search', 'RVC', 'symbolic execution', core.PROVED if ok else core.REFUTED, 0, str(search), witness=None if ok else {'searches': str(search)}))
+        cuts = [e for e in ev if e[0] == 'cutoff']
+        ok = len(cuts) == 1 and sp.expand(cuts[0][1] - cut) == 0 and ev.index(cuts[0]) < (ev.index(search[0]) if search else -1)
+        obs.append(Ob('C04.nonbonded3/%s/cutoff' % t, F, 'the search cutoff is the cut of the interaction, set before the search', 'RVC', 'symbolic execution', core.PROVED if ok else core.REFUTED, 0, str(cuts), witness=None if ok else {'events': str(ev)[:300]}))
+        pr = [e for e in ev if e[0] == 'process']
+        if len(pr) == 1 and pr[0][1] == 'h' and ('clear', 'h') in ev and ev.index(('clear', 'h')) < ev.index(pr[0]):
+            dot = sum(r12.g(i).v * r13.g(i).v for i in range(3))
+            n1 = sum(r12.g(i).v ** 2 for i in range(3)); n2 = sum(r13.g(i).v ** 2 for i in range(3))
+            val = pr[0][2]
+            if str(getattr(val, 'func', '')) == 'acos' and len(val.args) == 1:
+                obs.append(rvc.identity('C04.nonbonded3/%s/angle' % t, F, 'every triple found adds its centre angle acos(r12.r13 / (|r12| |r13|)) to the histogram of this interaction (cleared before)', sp.expand(val.args[0] ** 2 * n1 * n2), sp.expand(dot ** 2), seed))     # squared form; the sign is that of r12.r13 because the code divides by a sqrt (positive)
+            else:
+                obs.append(Ob('C04.nonbonded3/%s/angle' % t, F, 'every triple found adds its centre angle acos(r12.r13 / (|r12| |r13|)) to the histogram of this interaction', 'RVC', 'symbolic execution', core.REFUTED, 0, 'processed value: %s' % str(val)[:200], witness={'processed': str(val)[:200]}))
+        else:
+            obs.append(Ob('C04.nonbonded3/%s/angle' % t, F, 'every triple found adds its centre angle to the histogram of this interaction (cleared before)', 'RVC', 'symbolic execution', core.REFUTED, 0, str(ev)[:300], witness={'events': str(ev)[:300]}))
+    for o in obs:
+        o['functions'] = [{'name': F, 'file': REL, 'ast_nodes': rvc.node_count(fn)}]
+    return obs
+
+
 def collect(obs):
     seen = set(f['name'] for f in META['functions'])
     for o in obs:
@@ -555,7 +650,7 @@ def collect(obs):
 
 
 def run(tier, seed, only=None):
-    jobs = [(job_merge, (seed,)), (job_writedist, (seed,)), (job_groups, (seed,)), (job_norm, (seed,)), (job_nonbonded, (seed,)), (job_groups_symbolic, (seed,))]
+    jobs = [(job_merge, (seed,)), (job_writedist, (seed,)), (job_groups, (seed,)), (job_norm, (seed,)), (job_nonbonded, (seed,)), (job_nonbonded3, (seed,)), (job_groups_symbolic, (seed,))]
     if only:
         jobs = [j for j in jobs if re.search(only, j[0].__name__)]
     obs = core.pmap(jobs)
